@@ -70,6 +70,28 @@ CLAIMED.update({
                 note='Lengths are enumerated (boundary lengths per cell), contents are symbolic. Trusted: MIR executor, Vec/slice/iterator models, '
                      'term normaliser (validated by concrete runs against the native build), z3 5.1.',
                 design='4/C06'),
+    'C01': dict(technique='symbolic execution of the crate MIR (mirsym) of the whole QRCode::new pipeline per cell + ISO reference decoder on terms + SMT (z3 QF_BV); gate/glue contracts with uninterpreted stages',
+                text='About 100 end-to-end cells (quick): the real pipeline (encode, structure, division, blank symbol, placement, masking, format info) is '
+                     'executed with every payload character symbolic within its class and the mask option symbolic; the ISO reference decoder applied to the '
+                     'resulting module terms (format BCH decode, unmask, zig-zag read-out, de-interleave, segment parse) must return the mode, the count and '
+                     'every character, followed by a terminator. Gate and glue contracts prove for symbolic options and all 40 versions that QRCode::new / '
+                     'create_matrix wire the stages with the right arguments, so the per-stage checks compose for the cells not run end-to-end.',
+                note=_X_NOTE + ' End-to-end cells are enumerated (lengths, classes, option combinations); everything else is by composition of C06/C02/C07/matrix stage/gate/glue.',
+                design='4/C01'),
+    'C10': dict(technique='symbolic execution of the crate MIR with overflow/debug assertions on: every assert/panic/unwrap/unreachable met under a path condition becomes an SMT obligation; Kani built-in checks',
+                text='Every arithmetic-overflow, bounds, division and debug assertion and every panic!/unwrap/unreachable! site instance met while executing '
+                     'QRCode::new cells (incl. inputs far beyond capacity), place_on_matrix, structure+division and encode on symbolic contents is discharged as '
+                     '"path condition implies cannot fail"; Kani proves the same for best_encoding (<= 24 bytes), Version::get (every usize) and the GF kernel, '
+                     'with unwinding assertions. A loop with a symbolic trip count would be an unsupported construct (none met).',
+                note='Shapes (lengths, versions, option combinations) are enumerated; contents are symbolic. Forced modes that do not contain the input panic by design and are excluded.',
+                design='4/C10'),
+    'C11': dict(technique='symbolic execution of the crate MIR of score::* on all-symbolic data modules and of the selection loop with score uninterpreted + SMT (z3 QF_BV); accumulation-chain decomposition',
+                text='score::line for every row and column, matrix_score_squares and dark_module_score are proved equal to the documented penalty terms for every '
+                     'assignment of the data modules (V1-V2 quick, V1-V6 thorough); the selection loop is proved to rank candidate k = placed codewords masked '
+                     'with pattern k together with the transpose OF THAT CANDIDATE, to emit the first minimiser and to let a forced mask override. '
+                     'This check found the unmasked-transpose defect of the pinned tree (fixed in /repo 3072ea0).',
+                note='The un-stubbed end-to-end argmin query is beyond the solver; it is the conjunction of the two parts. Trusted: executor, models, z3.',
+                design='4/C11'),
     'C15': dict(technique=_X_TECH,
                 text='For a concrete version and symbolic stream/level/mask the type bits of every module equal the ISO region label as a constant, and '
                      'the number of data labels equals 8*total codewords + remainder bits.',
